@@ -288,9 +288,9 @@ func TestVerifC14Direct(t *testing.T) {
 	}
 	var fams []fam
 	if vx.Thorough() {
-		fams = []fam{{1, 2, true}, {2, 2, true}, {3, 3, true}, {4, 4, false}, {4, 2, true}, {5, 5, false}, {6, 2, false}}
+		fams = []fam{{1, 2, true}, {2, 2, true}, {3, 3, true}, {4, 4, false}, {4, 2, true}, {5, 5, false}, {5, 2, true}, {5, 3, true}, {6, 2, false}}
 	} else {
-		fams = []fam{{1, 2, true}, {2, 2, true}, {3, 3, true}, {4, 4, false}, {4, 2, true}, {5, 2, false}}
+		fams = []fam{{1, 2, true}, {2, 2, true}, {3, 3, true}, {4, 4, false}, {4, 2, true}, {5, 2, false}, {5, 2, true}}
 	}
 	for _, f := range fams {
 		choices := c14SuccChoices(f.n, f.maxOut, f.multi)
